@@ -599,6 +599,35 @@ pub fn run(ctx: &mut Ctx) {
             }
         }
     }
+    // ---- family F: many tiny pipelined requests (20..120 of 18..40 bytes): dozens complete inside one read
+    let n_f = ctx.budget(24, 600);
+    for i in 0..n_f {
+        if !ctx.mine(i + 7) {
+            continue;
+        }
+        let mut rng = ctx.item_rng(0xF, i);
+        let k = rng.range(20, 120);
+        let mut s = Vec::new();
+        for j in 0..k {
+            match rng.below(4) {
+                0 => s.extend_from_slice(b"GET / HTTP/1.1\r\n\r\n"),
+                1 => s.extend_from_slice(format!("GET /{} HTTP/1.0\r\n\r\n", j).as_bytes()),
+                2 => s.extend_from_slice(format!("PUT /{} HTTP/1.1\r\nContent-Length: 1\r\n\r\nx", j).as_bytes()),
+                _ => s.extend_from_slice(format!("PATCH /p{} HTTP/1.1\r\nA: {}\r\n\r\n", j, j).as_bytes()),
+            }
+        }
+        let plan_f = Plan {
+            all_single_cuts: !quick,
+            single_cut_stride: 17,
+            pairs: if quick { 6 } else { 60 },
+            const_sizes: vec![1, 64, 511, 1023, 1024, 1025],
+            random_multi: if quick { 4 } else { 20 },
+            gaps: vec![Gap::None, Gap::WouldBlock],
+        };
+        ctx.rep.count("family_many_tiny_requests");
+        ctx.rep.max("max_requests_in_one_stream", k as u64);
+        check_stream(ctx, &StreamCase { stream: &s, layouts: None, limit: 51200 }, &mut rng, &plan_f);
+    }
     // ---- family B: alignment-targeted streams
     let mut idx = 0u64;
     let reps = ctx.budget(1, 6);
